@@ -184,35 +184,38 @@ class DebugInfo:
                                 last_child_end,
                                 end_offset)
             else:
-                # there should have been an empty block marker inside.
-                # The marker of an empty block that ends right where
-                # this one starts has the same address as our start:
-                # ours is the last one in the range.
-                for addr in reversed(self.empty_blocks):
-                    if start_offset <= addr < end_offset:
-                        add_node_record(block.start_stmt,
-                                        start_offset,
-                                        addr)
-                        add_node_record(block.end_stmt,
-                                        addr,
-                                        end_offset)
-                        break
+                # No statement of the body produced code. If the body
+                # has statements at all (declarations, or code the
+                # optimiser removed), their empty records tell where
+                # the body is; they are recognised by their SOURCE
+                # position, because an empty record in front of the
+                # block can have the same address.
+                src_from = block.start_stmt.loc_end
+                src_to = block.end_stmt.loc_start
+                inside = [
+                    stmt.start_offset for stmt in self.stmts
+                    if src_from <= stmt.source_start_offset < src_to and
+                    start_offset <= stmt.start_offset <= end_offset
+                ]
+                if inside:
+                    addr = min(inside)
                 else:
-                    # no marker: the body had statements, but they
-                    # produced no code (the optimiser removed it).
-                    # Their (empty) records still tell where the body
-                    # would be.
-                    inside = [
-                        stmt.start_offset for stmt in self.stmts
-                        if start_offset < stmt.start_offset < end_offset
-                    ]
-                    addr = min(inside) if inside else end_offset
-                    add_node_record(block.start_stmt,
-                                    start_offset,
-                                    addr)
-                    add_node_record(block.end_stmt,
-                                    addr,
-                                    end_offset)
+                    # a syntactically empty body: there should be an
+                    # empty block marker inside. The marker of an
+                    # empty block that ends right where this one
+                    # starts has the same address as our start: ours
+                    # is the last one in the range.
+                    addr = end_offset
+                    for marker in reversed(self.empty_blocks):
+                        if start_offset <= marker < end_offset:
+                            addr = marker
+                            break
+                add_node_record(block.start_stmt,
+                                start_offset,
+                                addr)
+                add_node_record(block.end_stmt,
+                                addr,
+                                end_offset)
 
         self.stmts.sort(key=lambda r: r.start_offset)
 
